@@ -59,20 +59,19 @@ Fixpoint ins_mark (r : N) (o : list N) : list N :=
 Definition canonical_order (l : list N) : list N := rev (fold_left (fun o r => ins_mark r o) l []).
 Definition nfd_runes (l : list N) : list N := canonical_order (flat_map nfd_rune l).
 
-(* encodeTextSTL after normalisation: [o] is the output so far, reversed *)
-Fixpoint enc_runes (rs : list N) (o : list N) : list N :=
-  match rs with
-  | [] => rev o
-  | c :: r =>
-    match alookup c stl_unicode_mapping_inv with
-    | Some b => enc_runes r (b :: o)
-    | None =>
-      match alookup c stl_unicode_diacritic_inv with
-      | Some d => enc_runes r (match o with [] => [d] | l :: o' => l :: d :: o' end)
-      | None => enc_runes r (c mod 256 :: o)
-      end
+(* encodeTextSTL after normalisation, one code point: [o] is the output so far, reversed.  A code point of the
+   inverse mapping gives its byte; a floating diacritic goes in front of the last byte written (alone when there
+   is none); anything else is truncated to its low byte *)
+Definition enc_step (o : list N) (c : N) : list N :=
+  match alookup c stl_unicode_mapping_inv with
+  | Some b => b :: o
+  | None =>
+    match alookup c stl_unicode_diacritic_inv with
+    | Some d => match o with [] => [d] | l :: o' => l :: d :: o' end
+    | None => c mod 256 :: o
     end
   end.
+Definition enc_runes (rs : list N) (o : list N) : list N := rev (fold_left enc_step rs o).
 
 (* faithful domain of the text encoder: valid UTF-8 over K, no long run of combining marks (the normaliser
    inserts U+034F after 30 non-starters) *)
